@@ -125,6 +125,30 @@ def c05complete (evs : List Event) (gone : Aid → Bool) : Option String :=
       else none
     | _ => none
 
+/-- in a quiescent final state every actor whose termination was requested is gone -/
+def c05requests (evs : List Event) (gone : Aid → Bool) : Option String :=
+  evs.findSome? fun e => match e with
+    | .killreq t =>
+      if t ≥ 2 && t < ghostBase && !gone t then
+        -- did a handler of `t` fail after `t` had begun to terminate? (then it stays `terminating`)
+        let began := (List.range evs.length).find? fun k => match evs[k]? with
+          | some (Event.handled a _ .terminate _) => a == t
+          | _ => false
+        match began with
+        | some k =>
+          if ((List.range evs.length).any fun j => j > k && (match evs[j]? with
+                | some (Event.failed a) => a == t
+                | _ => false))
+          then some s!"c05:terminate-request-for-{t}-stuck-handler-failed-during-termination"
+          else if ((List.range evs.length).any fun j => j > k && (match evs[j]? with
+                | some (Event.spawned p c) => p == t && !gone c
+                | _ => false))
+          then some s!"c05:terminate-request-for-{t}-waits-for-child-spawned-during-termination"
+          else some s!"c05:terminate-request-for-{t}-had-no-effect"
+        | none => some s!"c05:terminate-request-for-{t}-had-no-effect"
+      else none
+    | _ => none
+
 /-! ## C06 — exactly one notification for the parent and for every watcher -/
 
 def countNotified (evs : List Event) (o t : Aid) : Nat :=
